@@ -34,7 +34,7 @@ EXPLANATION = ('compile_script runs on source text whose operands are symbolic: 
                'encoding, inside "true <stmt> false" so that swallowed or duplicated neighbours show; (B) block constructs in every '
                'terminator style and nesting against a reference block assembler; (C) every alias / case spelling compiles like the '
                'canonical name; (D) variables, macros, comptime; (E) concatenation of statements')
-MUST_REACH = ['operand_ok', 'operand_rejected', 'block_ok', 'spelling_ok', 'sugar_ok']
+MUST_REACH = ['operand_ok', 'operand_utf8', 'operand_rejected', 'block_ok', 'spelling_ok', 'sugar_ok']
 
 
 def OPC(pkg, name):
@@ -175,6 +175,26 @@ def h_operand(c, pkg, case, op=None, size=None):
         if body is not None:
             want = bytes([OPC(pkg, op), size]) + text
             c.check('encoding', len(body) == len(want) and bytes_eq(body, want), op=op)
+    elif case == 'sized_s_utf8':
+        # a string literal of arbitrary (valid) UTF-8: the size byte counts bytes, not characters
+        text = c.bytes('text', size)
+        for x in items_of(text):
+            c.assume(mk_bool(z3.Or(x >= 0x80, z3.And(x > 0x20, x < 0x7f, x != 0x22, x != 0x27, x != 0x23))))
+        try:
+            st = text.decode('utf-8')
+        except UnicodeDecodeError:
+            c.reach('operand_ok')
+            return                      # not text: no such source exists
+        for q in ('"', ''):
+            r = _compile_ctx(pkg, f'{op} s{q}{st}{q}')
+            c.check('accepted', r[0] == 'ok', got=repr(r)[:200], op=op)
+            body = _strip_ctx(c, r, op)
+            if body is not None:
+                want = bytes([OPC(pkg, op), size]) + text
+                c.check('encoding', len(body) == len(want) and bytes_eq(body, want), op=op, quote=q)
+        c.reach('operand_ok')
+        c.reach('operand_utf8')
+        return
     elif case == 'write_cache':
         key = c.bytes('key', size)
         n = c.int('count')
@@ -293,6 +313,11 @@ def _real_stmt(inputs, params):
         return f'{op} s"' + inputs['text'].decode() + '"'
     if case == 'write_cache':
         return f"write_cache x{h('key')} d{inputs['count']}"
+    if case == 'sized_s_utf8':
+        try:
+            return f'{op} s"' + inputs['text'].decode('utf-8') + '"'
+        except UnicodeDecodeError:
+            return None
     if case == 'write_cache_d':
         return f"write_cache d{inputs['key_n']} x{h('count_x')}"
     if case == 'write_cache_s':
@@ -368,6 +393,8 @@ def r_operand(inputs, params, obligation):
     elif case == 'write_cache':
         want = code('OP_WRITE_CACHE') + bytes([size]) + inputs.get('key', b'') + bytes([inputs['count']]) \
             if size <= 255 and inputs['count'] <= 255 else None
+    elif case == 'sized_s_utf8':
+        want = code(op) + bytes([size]) + inputs['text']
     elif case == 'write_cache_d':
         e = _ref_int(inputs['key_n'])
         want = code('OP_WRITE_CACHE') + bytes([len(e)]) + e + inputs['count_x']
@@ -666,6 +693,9 @@ def _p_operand(tier):
             out.append({'case': 'sized_x', 'op': op, 'size': s})
         out.append({'case': 'sized_d', 'op': op})
         out.append({'case': 'sized_s', 'op': op, 'size': 3})
+        out.append({'case': 'sized_s_utf8', 'op': op, 'size': 2})
+        if tier != 'quick' or op in ('OP_READ_CACHE', 'OP_GET_VALUE'):
+            out.append({'case': 'sized_s_utf8', 'op': op, 'size': 3})
     for s in (0, 1, 9, 255, 256):
         out.append({'case': 'write_cache', 'size': s})
     out.append({'case': 'write_cache_d'})
